@@ -878,6 +878,10 @@ def run(tier: str, seed: int) -> int:
     def bump(d, k):
         d[str(k)] = d.get(str(k), 0) + 1
 
+    # ---- entry-point table, re-extracted from the source (every .bard file reaches the parser through parse_file) ----
+    from . import c13_entrypoints
+    chk.notes["entry_point_table"] = c13_entrypoints.phase(chk, C.REPO)
+
     # ---- F13a pinned witness ----
     play_known = PLAY_SIG in chk.known_signatures()
     play_broken = pinned_play(chk)
